@@ -40,13 +40,6 @@ Qed.
 
 (* ------------------------------------------------------------------------- Close *)
 
-Lemma memN_in x l : memN x l = true <-> In x l.
-Proof.
-  unfold memN. rewrite existsb_exists. split.
-  - intros (y & Hy & E). apply N.eqb_eq in E. now subst.
-  - intro H. exists x. split; [assumption|apply N.eqb_refl].
-Qed.
-
 Lemma memN_ext x a b : (forall y, In y a <-> In y b) -> memN x a = memN x b.
 Proof.
   intro H. destruct (memN x a) eqn:Ea; destruct (memN x b) eqn:Eb; try reflexivity.
@@ -74,10 +67,50 @@ Section Close.
   Hypothesis Hnum : r_num stf = nlen F.
   Hypothesis Hget : forall t, In t F -> get (r_map stf) (idx F t) = if memN t regs then Some t else None.
 
+  Lemma close_tgt_pend t :
+    incl (ids_tgt t) F -> close_tgt stf (pend_tgt F t) = Some (spec_tgt regs t).
+  Proof.
+    intro Hin. destruct t as [x|]; cbn [pend_tgt close_tgt spec_tgt]; [|reflexivity].
+    assert (Hx : In x F) by (apply Hin; now left).
+    pose proof (idx_in_range F x Hx) as R.
+    destruct (N.eqb_spec (idx F x) 0) as [E|_]; [lia|].
+    destruct (N.ltb_spec (r_num stf) (idx F x)) as [L|_]; [lia|].
+    cbn [orb]. rewrite Hget by assumption. destruct (memN x regs); reflexivity.
+  Qed.
+
+  Lemma close_tgts_pend ts :
+    incl (flat_map ids_tgt ts) F -> close_tgts stf (map (pend_tgt F) ts) = Some (map (spec_tgt regs) ts).
+  Proof.
+    induction ts as [|t r IH]; intro Hin; cbn [map close_tgts flat_map] in *; [reflexivity|].
+    rewrite close_tgt_pend by (intros x Hx; apply Hin; apply in_or_app; now left).
+    rewrite IH by (intros x Hx; apply Hin; apply in_or_app; now right). reflexivity.
+  Qed.
+
+  Lemma close_body_pend b :
+    incl (ids_body b) F -> close_body stf (pend_body F b) = Some (spec_body regs b).
+  Proof.
+    intro Hin.
+    destruct b as [|bs|k v|s|k x|hid rc tl thr tli count|hid rc size|pid ts|k h|bs];
+      cbn [pend_body close_body spec_body ids_body] in *; try reflexivity.
+    - now rewrite close_tgt_pend.
+    - rewrite close_tgts_pend; [reflexivity|]. intros x Hx. apply Hin. now right.
+    - now rewrite close_tgt_pend.
+  Qed.
+
+  Lemma close_toks_pend ts :
+    incl (flat_map ids_tok ts) F -> close_toks stf (map (pend_tok F) ts) = Some (map (spec_tok regs) ts).
+  Proof.
+    induction ts as [|t r IH]; intro Hin; cbn [map close_toks flat_map] in *; [reflexivity|].
+    cbn [pend_tok t_body t_vid].
+    rewrite close_body_pend by (intros x Hx; apply Hin; apply in_or_app; left; now right).
+    rewrite IH by (intros x Hx; apply Hin; apply in_or_app; now right). reflexivity.
+  Qed.
+
   Lemma close_leaf_pend l :
     incl (ids_leaf l) F -> close_leaf stf (pend_leaf F l) = Some (spec_leaf regs l).
   Proof.
-    intro Hin. destruct l as [k v|bs|bs|s [t|]|id]; cbn [pend_leaf close_leaf spec_leaf]; try reflexivity.
+    intro Hin. destruct l as [k v|bs|bs|s [t|]|id|key toks]; cbn [pend_leaf close_leaf spec_leaf]; try reflexivity.
+    2:{ cbn [ids_leaf] in Hin. now rewrite close_toks_pend. }
     assert (Ht : In t F) by (apply Hin; now left).
     pose proof (idx_in_range F t Ht) as R.
     destruct (N.eqb_spec (idx F t) 0) as [E|_]; [lia|].
@@ -122,14 +155,23 @@ Proof.
   - destruct Hx as [<-|Hx]; apply in_or_app; [right; now left|now left].
 Qed.
 
+Lemma reg_leaf_incl l : incl (reg_leaf l) (ids_leaf l).
+Proof.
+  intros x Hx. destruct l as [k v|bs|bs|s t|id|key toks]; cbn [reg_leaf ids_leaf] in *; try contradiction; try assumption.
+  rewrite in_flat_map in *. destruct Hx as (t & Ht & Hx). exists t. split; [assumption|].
+  unfold reg_tok, ids_tok in *. destruct Hx as [<-|Hx]; [now left|]. right.
+  destruct (t_body t); cbn [ids_body] in *; try contradiction; try assumption.
+  destruct Hx as [<-|[]]. now left.
+Qed.
+
 Lemma regs_items_incl its : incl (regs_items its) (flat_map ids_item its).
 Proof.
   intros x Hx. unfold regs_items in Hx. rewrite in_flat_map in *. destruct Hx as (it & Hit & Hx). exists it. split; [assumption|].
   destruct it as [l|c id body]; cbn [regs_item ids_item] in *.
-  - destruct l; cbn in *; try contradiction; assumption.
+  - now apply reg_leaf_incl.
   - apply in_app_or in Hx as [Hx|[<-|[]]]; [right|now left].
     rewrite in_flat_map in *. destruct Hx as (l & Hl & Hx). exists l. split; [assumption|].
-    destruct l; cbn in *; try contradiction; assumption.
+    now apply reg_leaf_incl.
 Qed.
 
 Lemma size_leaves_ge l ls : In l ls -> size_leaf l <= size_leaves ls.
@@ -137,16 +179,27 @@ Proof.
   induction ls as [|a r IH]; intros []; cbn [size_leaves]; [subst; lia|]. specialize (IH H). lia.
 Qed.
 
-Lemma nlen_le_size_leaves ls : nlen ls <= size_leaves ls.
+Lemma cnt_toks_le_size ts : cnt_toks ts <= size_toks ts.
 Proof.
-  induction ls as [|a r IH]; cbn [size_leaves]; [unfold nlen; cbn; lia|].
-  rewrite nlen_cons. pose proof (size_leaf_pos a). lia.
+  induction ts as [|t r IH]; cbn [cnt_toks size_toks]; [lia|].
+  unfold cnt_tok. destruct (t_body t); cbn [cnt_body size_body]; try lia.
+Qed.
+
+Lemma count_le_size_leaf l : count_leaf l <= size_leaf l.
+Proof.
+  destruct l as [k v|bs|bs|s t|id|key toks]; cbn [count_leaf size_leaf]; unfold size_str; try lia.
+  pose proof (cnt_toks_le_size toks). lia.
+Qed.
+
+Lemma count_le_size_leaves ls : count_leaves ls <= size_leaves ls.
+Proof.
+  induction ls as [|a r IH]; cbn [count_leaves size_leaves]; [lia|]. pose proof (count_le_size_leaf a). lia.
 Qed.
 
 Lemma count_le_size_item it : count_item it <= size_item it.
 Proof.
-  destruct it as [l|c id body]; cbn [count_item size_item]; [apply size_leaf_pos|].
-  pose proof (nlen_le_size_leaves body). lia.
+  destruct it as [l|c id body]; cbn [count_item size_item]; [apply count_le_size_leaf|].
+  pose proof (count_le_size_leaves body). lia.
 Qed.
 
 Lemma count_le_size_items its : count_items its <= size_items its.
@@ -180,7 +233,7 @@ Proof.
   unfold wf_case, wf_hdr, wf_items. intro H.
   repeat match goal with Hx : (_ && _) = true |- _ => apply andb_true_iff in Hx; destruct Hx end.
   repeat match goal with Hx : (_ <? _) = true |- _ => apply N.ltb_lt in Hx end.
-  destruct (write_as_enc h its) as (F & Hw & Hin & Hlen).
+  destruct (write_as_enc h its) as (F & Hw & Hin & Hlen); [assumption|].
   pose proof (count_le_size_items its) as Hc.
   assert (HF : nlen F < 2147483648) by lia.
   unfold read. rewrite Hw.
@@ -199,8 +252,19 @@ Proof.
   unfold all_targets_archived, spec_items. generalize (registered its) as reg. intro reg.
   induction its as [|it r IH]; intro H; cbn [forallb map] in *; [reflexivity|].
   apply andb_true_iff in H as [H1 H2]. rewrite IH by assumption. f_equal.
+  assert (HTt : forall t, targets_tgt reg t = true -> spec_tgt reg t = t).
+  { intros [x|] Hx; cbn [targets_tgt spec_tgt] in *; [now rewrite Hx|reflexivity]. }
+  assert (HBb : forall b, targets_body reg b = true -> spec_body reg b = b).
+  { intros [|bs|k v|s|k x|hid rc tl thr tli count|hid rc size|pid ts|k h0|bs] Hx; cbn [targets_body spec_body] in *; try reflexivity.
+    - now rewrite HTt.
+    - f_equal. induction ts as [|t0 r0 IHr]; cbn [forallb map] in *; [reflexivity|].
+      apply andb_true_iff in Hx as [Hx1 Hx2]. rewrite HTt by assumption. now rewrite IHr.
+    - now rewrite HTt. }
   assert (Hl : forall l, targets_leaf reg l = true -> spec_leaf reg l = l).
-  { intros [k v|bs|bs|s [t|]|id] Hl; cbn [targets_leaf spec_leaf] in *; try reflexivity. now rewrite Hl. }
+  { intros [k v|bs|bs|s [t|]|id|key toks] Hl; cbn [targets_leaf spec_leaf] in *; try reflexivity; [now rewrite Hl|].
+    f_equal. induction toks as [|t0 r0 IHr]; cbn [forallb map] in *; [reflexivity|].
+    apply andb_true_iff in Hl as [Hl1 Hl2]. rewrite IHr by assumption. f_equal.
+    unfold spec_tok. rewrite HBb by assumption. now destruct t0. }
   destruct it as [l|c id body]; cbn [targets_item spec_item] in *; [now rewrite Hl|].
   f_equal. induction body as [|l b IHb]; cbn [forallb map] in *; [reflexivity|].
   apply andb_true_iff in H1 as [Ha Hb]. rewrite Hl by assumption. now rewrite IHb.
@@ -212,8 +276,18 @@ Theorem round_trip_identity caf vor h its :
 Proof. intros H1 H2. rewrite round_trip by assumption. now rewrite spec_items_id. Qed.
 
 (* the reader only looks at the shape *)
+Lemma shape_tok_idem t : shape_tok (shape_tok t) = shape_tok t.
+Proof.
+  unfold shape_tok. cbn [t_vid t_body]. f_equal.
+  destruct (t_body t); try reflexivity. f_equal. rewrite map_map. reflexivity.
+Qed.
+
 Lemma shape_leaf_idem l : shape_leaf (shape_leaf l) = shape_leaf l.
-Proof. destruct l as [k v|bs|bs|s t|id]; cbn [shape_leaf]; try reflexivity. now rewrite repeat_length. Qed.
+Proof.
+  destruct l as [k v|bs|bs|s t|id|key toks]; cbn [shape_leaf]; try reflexivity.
+  - now rewrite repeat_length.
+  - f_equal; [now destruct key|]. rewrite map_map. apply map_ext. apply shape_tok_idem.
+Qed.
 
 Lemma shape_idem its : shape (shape its) = shape its.
 Proof.
